@@ -14,22 +14,29 @@ class STLExplainer(LTLExplainer, StlAstVisitor):
         return StlAstVisitor.visit(self, element, args)
 
 
-    def explain(self, spec):
+    def explain(self, spec, interpreter=None):
         self.spec = spec
+        self.interpreter = interpreter
         self.explanations = dict()
         for spec in self.spec.specs:
             top_signal = self.spec.results[spec]
             if top_signal[0] < 0:
                 self.visit(spec, [[[0,0]], False])
 
+    def bounds(self, element):
+        # bounds of a timed operator in samples, as the monitor that produced the results used them
+        if getattr(self, 'interpreter', None) is not None:
+            return self.interpreter.time_unit_transformer(element)
+        return element.begin, element.end
+
     def visitTimedEventually(self, element, args):
         intervals = args[0]
         flag = args[1]
         op_signal = self.spec.results[element.children[0]]
         if flag:
-            op_intervals = explain_sat_timed_eventually(op_signal, intervals, element.begin, element.end)
+            op_intervals = explain_sat_timed_eventually(op_signal, intervals, *self.bounds(element))
         else:
-            op_intervals = explain_unsat_timed_eventually(op_signal, intervals, element.begin, element.end)
+            op_intervals = explain_unsat_timed_eventually(op_signal, intervals, *self.bounds(element))
         self.explanations[element.name] = intervals
         self.visit(element.children[0], [op_intervals, flag])
 
@@ -38,9 +45,9 @@ class STLExplainer(LTLExplainer, StlAstVisitor):
         flag = args[1]
         op_signal = self.spec.results[element.children[0]]
         if flag:
-            op_intervals = explain_sat_timed_always(op_signal, intervals, element.begin, element.end)
+            op_intervals = explain_sat_timed_always(op_signal, intervals, *self.bounds(element))
         else:
-            op_intervals = explain_unsat_timed_always(op_signal, intervals, element.begin, element.end)
+            op_intervals = explain_unsat_timed_always(op_signal, intervals, *self.bounds(element))
         self.explanations[element.name] = intervals
         self.visit(element.children[0], [op_intervals, flag])
 
@@ -52,9 +59,9 @@ class STLExplainer(LTLExplainer, StlAstVisitor):
         flag = args[1]
         op_signal = self.spec.results[element.children[0]]
         if flag:
-            op_intervals = explain_sat_timed_once(op_signal, intervals, element.begin, element.end)
+            op_intervals = explain_sat_timed_once(op_signal, intervals, *self.bounds(element))
         else:
-            op_intervals = explain_unsat_timed_once(op_signal, intervals, element.begin, element.end)
+            op_intervals = explain_unsat_timed_once(op_signal, intervals, *self.bounds(element))
         self.explanations[element.name] = intervals
         self.visit(element.children[0], [op_intervals, flag])
 
@@ -63,9 +70,9 @@ class STLExplainer(LTLExplainer, StlAstVisitor):
         flag = args[1]
         op_signal = self.spec.results[element.children[0]]
         if flag:
-            op_intervals = explain_sat_timed_historically(op_signal, intervals, element.begin, element.end)
+            op_intervals = explain_sat_timed_historically(op_signal, intervals, *self.bounds(element))
         else:
-            op_intervals = explain_unsat_timed_historically(op_signal, intervals, element.begin, element.end)
+            op_intervals = explain_unsat_timed_historically(op_signal, intervals, *self.bounds(element))
         self.explanations[element.name] = intervals
         self.visit(element.children[0], [op_intervals, flag])
 
